@@ -85,6 +85,24 @@ def run(rep, tier, driver):
             jobs.append(gen.render(v, "full"))
             meta.append((groups, "exhaustive-shape"))
         groups += 1
+    # non-reducing glycans (trehalose / sucrose / raffinose / kestose type): a residue sits on the root's own anomeric oxygen next to
+    # one to three further branches - every written order
+    def L(a, c, p):
+        return {"anomer": a, "cpos": c, "ppos": p}
+    nonred = [
+        gen.T("Glc", [(L("b", 2, 1), gen.T("Fruf")), (L("a", 1, 6), gen.T("Gal"))]),
+        gen.T("Glc", [(L("b", 2, 1), gen.T("Fruf")), (L("a", 1, 6), gen.T("Gal")), (L("a", 1, 3), gen.T("Man"))]),
+        gen.T("Glc", [(L("b", 2, 1), gen.T("Fruf")), (L("a", 1, 6), gen.T("Gal")), (L("a", 1, 3), gen.T("Man")), (L("b", 1, 4), gen.T("Glc"))]),
+        gen.T("Fruf", [(L("a", 1, 2), gen.T("Glc")), (L("b", 2, 1), gen.T("Fruf"))]),
+        gen.T("Fruf", [(L("a", 1, 2), gen.T("Glc")), (L("b", 2, 1), gen.T("Fruf")), (L("b", 2, 6), gen.T("Fruf"))]),
+        gen.T("Gal", [(L("a", 1, 1), gen.T("Gal")), (L("b", 1, 3), gen.T("Gal")), (L("a", 1, 6), gen.T("Man"))]),
+        gen.T("Glc", [(L("a", 1, 1), gen.T("Glc", [(L("a", 1, 6), gen.T("Man"))])), (L("a", 1, 6), gen.T("Man")), (L("b", 1, 4), gen.T("Gal"))]),
+    ]
+    for t in nonred:
+        for v in all_perms(t):
+            jobs.append(gen.render(v, "full"))
+            meta.append((groups, "non-reducing-root"))
+        groups += 1
     # random larger trees: the written order against several random permutations
     for i in range(120 if tier == "quick" else 1500):
         t = cv.random_tree(rng, rng.randint(4, 14 if tier == "quick" else 30), chain_bias=0.25)
